@@ -176,10 +176,11 @@ def run(ctx):
             ctx.ob("C14.R5", o.where, o.ok, o.what, key=o.key, loc=o.loc, detail=o.detail)
     ctx.floor("C14.R5", 12)
     from . import C04
-    C04.shared_obligations(ctx, "C14.R6", {"RawCopy", "Checksum", "Pointer", "Tell", "Prefixed", "FixedSized", "Struct", "Sequence", "FocusedSeq"})
+    C04.shared_obligations(ctx, "C14.R6", {"RawCopy", "Checksum", "Pointer", "Tell", "Prefixed", "FixedSized", "Struct", "Sequence", "FocusedSeq", "Aligned", "Padded"})
     # Checksum(..., this.payload.data): what a RawCopy member built must be in the scope of the members after it (shared with C07.R4)
     from . import C07
     C07.member_store_checks(ctx, "C14.R7")
+    C07.wrapper_build_result(ctx, "C14.R7")       # the RawCopy record reaches the enclosing structure through every wrapper around it
     ctx.floor("C14.R7", 20)
     ctx.floor("C14.R6", 6)
     # RawCopy._build reads back what was written by seeking to offset1: on every stream wrapper of the package a seek only moves the
